@@ -69,25 +69,12 @@
 #define VG_DEC_OK     (VG_STRUCT_OK && VG_SCALARS_OK)
 #define VG_DEC_RUN    (VG_STRUCT_OK && VG_RUNNING)
 
-#ifdef VG_MEMSET_STUB
-/* ASSUME: memset(s, c, n) writes exactly s[0..n) (all bytes c) and returns s (libc); used only by the
-   lha_pm2_decoder_init group, where the call is memset(&decoder->ringbuf, ' ', RING_BUFFER_SIZE). */
-void *vg_memset(void *s, int c, size_t n)
-{
-	__CPROVER_assert(n == 8192 && __CPROVER_w_ok(s, 8192), "memset range is the whole ring buffer");
-	__CPROVER_havoc_slice(s, 8192);
-	return s;
-}
-#define memset vg_memset
-#endif
-
 #include "lib/pm2_decoder.c"
 
 TreeElement *const vg_bt_tree = VG_BT_ARRAY;
 TreeElement *const vg_rt_tree = VG_RT_ARRAY;
 HistoryLinkedList *const vg_hist = &vg_dec.history_list;
 const VariableLengthTable *const vg_vlt = VG_VLT_ARRAY;
-uint8_t vg_hist_k;   /* Skolem index: set to an arbitrary value by the entry, never assigned by the code (not in any assigns clause) */
 
 static void vg_havoc(void)
 {
@@ -113,7 +100,7 @@ void h_read_from_tree(void) { BitStreamReader *r; TreeElement *t; vg_havoc(); re
 void h_decode_variable_length(void) { BitStreamReader *r; const VariableLengthTable *t; unsigned h; vg_havoc(); decode_variable_length(r, t, h); VG_CANARY("decode_variable_length"); }
 void h_init_history_list(void) { HistoryLinkedList *l; vg_havoc(); init_history_list(l); VG_CANARY("init_history_list"); }
 void h_find_in_history_list(void) { HistoryLinkedList *l; uint8_t c; vg_havoc(); find_in_history_list(l, c); VG_CANARY("find_in_history_list"); }
-void h_update_history_list(void) { HistoryLinkedList *l; uint8_t b; vg_havoc(); vg_hist_k = nondet_uchar(); update_history_list(l, b); VG_CANARY("update_history_list"); }
+void h_update_history_list(void) { HistoryLinkedList *l; uint8_t b; vg_havoc(); update_history_list(l, b); VG_CANARY("update_history_list"); }
 
 /* pm2_decoder.c */
 void h_init(void)
@@ -132,6 +119,38 @@ void h_history_get_count(void) { LHAPM2Decoder *d; unsigned c; vg_havoc(); histo
 void h_history_get_offset(void) { LHAPM2Decoder *d; unsigned c; vg_havoc(); history_get_offset(d, c); VG_CANARY("history_get_offset"); }
 void h_copy_from_history(void) { LHAPM2Decoder *d; unsigned c; uint8_t *b; size_t *bl; vg_havoc(); copy_from_history(d, c, b, bl); VG_CANARY("copy_from_history"); }
 void h_read(void) { void *d; uint8_t *b; vg_havoc(); lha_pm2_decoder_read(d, b); VG_CANARY("lha_pm2_decoder_read"); }
+
+/* Bounded refuter: the real decoder from its real initial state (lha_decoder_new callocs the state, so the
+   zero-initialised arena is exact), fed at most 4 arbitrary input bytes, two reads.  No contracts are applied
+   (plain route).  Inputs live in vg_in_* so that the engine can lift them from the counterexample. */
+uint8_t vg_in_b[4];
+size_t vg_in_n;
+size_t vg_in_pos;
+size_t vg_in_cb(void *buf, size_t buf_len, void *user_data)
+{
+	uint8_t *p = (uint8_t *) buf;
+	size_t n = 0;
+	if (n < buf_len && vg_in_pos < vg_in_n) p[n++] = vg_in_b[vg_in_pos++];
+	if (n < buf_len && vg_in_pos < vg_in_n) p[n++] = vg_in_b[vg_in_pos++];
+	if (n < buf_len && vg_in_pos < vg_in_n) p[n++] = vg_in_b[vg_in_pos++];
+	if (n < buf_len && vg_in_pos < vg_in_n) p[n++] = vg_in_b[vg_in_pos++];
+	return n;
+}
+size_t (*const vg_in_cb_ptr)(void *, size_t, void *) = vg_in_cb;
+void h_refute(void)
+{
+	size_t n1, n2;
+	vg_in_b[0] = nondet_uchar(); vg_in_b[1] = nondet_uchar(); vg_in_b[2] = nondet_uchar(); vg_in_b[3] = nondet_uchar();
+	vg_in_n = nondet_size_t();
+	__CPROVER_assume(vg_in_n <= 4);
+	vg_in_pos = 0;
+	lha_pm2_decoder_init(&vg_dec, vg_in_cb, NULL);
+	n1 = lha_pm2_decoder_read(&vg_dec, vg_out);
+	__CPROVER_assert(n1 <= OUTPUT_BUFFER_SIZE, "first read returns at most max_read bytes");
+	n2 = lha_pm2_decoder_read(&vg_dec, vg_out);
+	__CPROVER_assert(n2 <= OUTPUT_BUFFER_SIZE, "second read returns at most max_read bytes");
+	VG_CANARY("refute");
+}
 
 /* The LHADecoderType initialiser ties the contracts to what lha_decoder_new allocates, and the harness
    constants to the real declarations. */
